@@ -180,6 +180,12 @@ func init() {
 		in.h.Bounds["alloc-limit"] = in.allocLimit
 		return nil
 	})
+	reg(rtPkg+"AllocBound", func(in *Interp, fr *frame, args []value) value {
+		in.allocLimit = args[0].(*Term).sval()
+		in.allocCut = true
+		in.h.Bounds["alloc-bound(outside claim above)"] = in.allocLimit
+		return nil
+	})
 	reg(rtPkg+"Preemptions", func(in *Interp, fr *frame, args []value) value {
 		in.maxPreempt = int(args[0].(*Term).sval())
 		in.h.Bounds["preemptions"] = int64(in.maxPreempt)
@@ -223,6 +229,10 @@ func init() {
 	reg(rtPkg+"ClockRange", func(in *Interp, fr *frame, args []value) value {
 		in.clockLo, in.clockHi = args[0].(*Term), args[1].(*Term)
 		return nil
+	})
+	reg(rtPkg+"Since", func(in *Interp, fr *frame, args []value) value {
+		now := in.timeNow()
+		return in.tt.Sub(timeNS(now), timeNS(args[0]))
 	})
 	reg(rtPkg+"LastNow", func(in *Interp, fr *frame, args []value) value {
 		if in.clockLast == nil {
